@@ -110,7 +110,7 @@ func c17Gen(rng *verifsim.RNG, idx int, tier string) *Plan {
 			p.Class = "held-scrape"
 			t0 := int64(rng.Dur(time.Second, horizon/2))
 			p.Faults = append(p.Faults, Fault{Seam: "auto.get", From: t0, Hold: "hs"})
-			p.Actions = append(p.Actions, Action{At: t0 + 1000, Kind: "http", Path: "/metrics"})
+			p.Actions = append(p.Actions, Action{At: t0 + 1000, Kind: "http", Path: "/metrics", Conn: rng.Bool(0.5)})
 			d := int64(rng.Dur(time.Second, 15*time.Second))
 			for i := 0; i < 3; i++ {
 				a := rsAction(t0+int64(rng.Dur(0, time.Duration(d))), hostAddr(i))
@@ -229,6 +229,9 @@ func expectedSamples(ifn string, m *modelOut) ([]expSample, bool) {
 		case "route":
 			add("corerad_advertiser_route_lifetime_seconds", fmt.Sprintf("interface=%s,route=%s", ifn, o.pfx), o.lo[0], o.hi[0])
 		case "rdnss":
+			if o.altFixed != "" {
+				continue // two renderings are as good as each other: not judged
+			}
 			add("corerad_advertiser_rdnss_lifetime_seconds", fmt.Sprintf("interface=%s,servers=%s", ifn, strings.Join(o.list, ", ")), o.lo[0], o.hi[0])
 		case "dnssl":
 			add("corerad_advertiser_dnssl_lifetime_seconds", fmt.Sprintf("domains=%s,interface=%s", strings.Join(o.list, ", "), ifn), o.lo[0], o.hi[0])
@@ -359,6 +362,36 @@ func c17Oracle(info *runInfo, res *verifsim.Result) {
 		case "http.exit":
 			if r := reqs[e.Ref]; r != nil {
 				r.exit = e
+			}
+		}
+	}
+	// requests that travelled over a connection: what the handler produced is
+	// what the client gets, however long the handler took - unless the daemon
+	// was told to stop before the handler was done
+	{
+		_, stopSeq0, _ := stopInstant(h, 0)
+		for i := range info.ev {
+			e := &info.ev[i]
+			if e.K != "http.client" {
+				continue
+			}
+			r := reqs[e.Ref]
+			if r == nil || r.exit == nil || (stopSeq0 != 0 && stopSeq0 < e.Seq) {
+				continue
+			}
+			dead := false
+			for j := range info.ev {
+				x := &info.ev[j]
+				if (x.K == "serve.exit" || x.K == "http.close") && x.Seq < e.Seq {
+					dead = true
+				}
+			}
+			if dead {
+				continue
+			}
+			res.Probe("client_answer_compared")
+			if e.Err != "" || e.V != r.exit.V {
+				res.Violate("C17.block", "client-unanswered", "request %s issued at %s over a connection: the handler answered %d after %s, the client got status %d %s", r.act.S, ms(r.act.T), r.exit.V, time.Duration(r.exit.T-r.act.T), e.V, e.Err)
 			}
 		}
 	}
